@@ -192,7 +192,7 @@ def c08(tier):
 def c09(tier):
     t0 = time.time()
     cfgs = vec.FAULT_QUICK + (vec.FAULT_THOROUGH if tier == "thorough" else [])
-    cov, viols, inc = sets.run_engine("C09", tier, cfgs, 27, 27, extra_args=["--wide"] if tier == "thorough" else [], crash_owners=("C09",), any_prop=True)
+    cov, viols, inc = sets.run_engine("C09", tier, cfgs, 28, 28, extra_args=["--wide"] if tier == "thorough" else [], crash_owners=("C09",), any_prop=True)
     scfgs = sets.SETFAULT_QUICK + (sets.SETFAULT_THOROUGH if tier == "thorough" else [])
     c2, v2, i2 = sets.run_engine("C09", tier, scfgs, 13, 13, crash_owners=("C09",), any_prop=True)
     cov, viols, inc = sets.merge_cov(cov, c2), viols + v2, inc + i2
